@@ -59,6 +59,15 @@ pub assume_specification[ str::trim ](s: &str) -> (r: &str)
         // std: "returns a string slice with leading and trailing whitespace removed",
         // whitespace being the same Unicode White_Space property `char::is_whitespace` tests
         r@.len() > 0 ==> !char_is_ws(r@[0]) && !char_is_ws(r@.last());
+/// A2: `str::trim_end` / `trim_start` likewise return some substring without trailing / leading
+/// White_Space (they are not used on the pinned tree; specified so that a change which starts
+/// to trim an input stays decidable)
+pub uninterp spec fn vx_trim_end(s: Seq<char>) -> Seq<char>;
+pub uninterp spec fn vx_trim_start(s: Seq<char>) -> Seq<char>;
+pub assume_specification[ str::trim_end ](s: &str) -> (r: &str)
+    ensures r@ == vx_trim_end(s@), r@.len() <= s@.len(), r@.len() > 0 ==> !char_is_ws(r@.last());
+pub assume_specification[ str::trim_start ](s: &str) -> (r: &str)
+    ensures r@ == vx_trim_start(s@), r@.len() <= s@.len(), r@.len() > 0 ==> !char_is_ws(r@[0]);
 
 
 /// A2: `str::chars().count()` is the number of chars; a str is at most isize::MAX bytes long
